@@ -20,7 +20,7 @@ import (
 )
 
 const bs = 16         // block edge of every instance
-const annBlocks = 160 // painted blocks available to annotation episodes
+const annBlocks = 400 // painted blocks available to annotation episodes
 const mergeCols = 2048
 
 type world struct {
@@ -809,18 +809,18 @@ func livePrepare(w *world, s *siteDef, yield string) prepared {
 
 func allSites() []siteDef {
 	return []siteDef{
-		{name: "keyvalue.PutData", family: "ann", prepare: kvPrepare(false), stressN: [2]int{8, 12}, rounds: [2]int{12, 80}},
-		{name: "keyvalue.DeleteData", family: "ann", prepare: kvPrepare(true), stressN: [2]int{8, 12}, rounds: [2]int{8, 60}},
-		{name: "annotation.StoreElements", family: "ann", yields: []string{"annotation.StoreElements.commit"}, prepare: annStorePrepare, stressN: [2]int{6, 10}, rounds: [2]int{8, 20}},
-		{name: "annotation.DeleteElement", family: "ann", yields: []string{"annotation.DeleteElement.block", "annotation.DeleteElement.commit"}, prepare: annDeletePrepare, stressN: [2]int{6, 10}, rounds: [2]int{8, 20}},
-		{name: "annotation.MoveElement", family: "ann", yields: []string{"annotation.MoveElement.block", "annotation.MoveElement.commit"}, prepare: annMovePrepare, stressN: [2]int{6, 10}, rounds: [2]int{8, 20}},
-		{name: "labelmap.MergeLabels", family: "lm", yields: []string{"labelmap.MergeLabels.target"}, prepare: lmMergePrepare, stressN: [2]int{5, 8}, rounds: [2]int{8, 40}},
-		{name: "labelmap.CleaveLabel", family: "lm", yields: []string{"labelmap.cleaveIndex.read"}, prepare: lmCleavePrepare, stressN: [2]int{5, 8}, rounds: [2]int{8, 40}},
-		{name: "labelmap.ChangeLabelIndex", family: "lm", yields: []string{"labelmap.ChangeLabelIndex.read"}, prepare: lmChangeIndexPrepare, stressN: [2]int{8, 12}, rounds: [2]int{10, 80}},
-		{name: "neuronjson.storeAndUpdate", family: "nj", yields: []string{"neuronjson.storeAndUpdate.read", "neuronjson.storeAndUpdate.store"}, prepare: njPrepare, stressN: [2]int{6, 10}, rounds: [2]int{8, 40}},
+		{name: "keyvalue.PutData", family: "ann", prepare: kvPrepare(false), stressN: [2]int{8, 12}, rounds: [2]int{12, 300}},
+		{name: "keyvalue.DeleteData", family: "ann", prepare: kvPrepare(true), stressN: [2]int{8, 12}, rounds: [2]int{8, 200}},
+		{name: "annotation.StoreElements", family: "ann", yields: []string{"annotation.StoreElements.commit"}, prepare: annStorePrepare, stressN: [2]int{6, 10}, rounds: [2]int{8, 100}},
+		{name: "annotation.DeleteElement", family: "ann", yields: []string{"annotation.DeleteElement.block", "annotation.DeleteElement.commit"}, prepare: annDeletePrepare, stressN: [2]int{6, 10}, rounds: [2]int{8, 100}},
+		{name: "annotation.MoveElement", family: "ann", yields: []string{"annotation.MoveElement.block", "annotation.MoveElement.commit"}, prepare: annMovePrepare, stressN: [2]int{6, 10}, rounds: [2]int{8, 100}},
+		{name: "labelmap.MergeLabels", family: "lm", yields: []string{"labelmap.MergeLabels.target"}, prepare: lmMergePrepare, stressN: [2]int{5, 8}, rounds: [2]int{8, 100}},
+		{name: "labelmap.CleaveLabel", family: "lm", yields: []string{"labelmap.cleaveIndex.read"}, prepare: lmCleavePrepare, stressN: [2]int{5, 8}, rounds: [2]int{8, 100}},
+		{name: "labelmap.ChangeLabelIndex", family: "lm", yields: []string{"labelmap.ChangeLabelIndex.read"}, prepare: lmChangeIndexPrepare, stressN: [2]int{8, 12}, rounds: [2]int{10, 300}},
+		{name: "neuronjson.storeAndUpdate", family: "nj", yields: []string{"neuronjson.storeAndUpdate.read", "neuronjson.storeAndUpdate.store"}, prepare: njPrepare, stressN: [2]int{6, 10}, rounds: [2]int{8, 150}},
 		{name: "datastore.newVersion", family: "dag", yields: []string{"datastore.newVersion.append"},
 			live:    []string{"datastore.saveToStore.rlocked", "datastore.newVersion.append"},
-			prepare: dagPrepare(false), stressN: [2]int{6, 10}, rounds: [2]int{10, 40}},
-		{name: "datastore.newVersion", variant: "branch", family: "dag", prepare: dagPrepare(true), stressN: [2]int{6, 10}, rounds: [2]int{6, 30}},
+			prepare: dagPrepare(false), stressN: [2]int{6, 10}, rounds: [2]int{10, 120}},
+		{name: "datastore.newVersion", variant: "branch", family: "dag", prepare: dagPrepare(true), stressN: [2]int{6, 10}, rounds: [2]int{6, 60}},
 	}
 }
